@@ -230,7 +230,8 @@ dumpvd(int32 vd, file_format_t ff, int data_only, FILE *fp, char separator[2], i
                 count = nv - done;
 
             /* read and update bookkeeping */
-            if (FAIL == VSread(vd, bb, count, interlace)) {
+            /* the loop below walks the buffer record by record, whatever the interlace of the vdata */
+            if (FAIL == VSread(vd, bb, count, FULL_INTERLACE)) {
                 /* If the data set has external element, get the external file
                 name to provide information */
                 int extfile_namelen = VSgetexternalfile(vd, 0, NULL, NULL);
@@ -357,7 +358,8 @@ dumpvd(int32 vd, file_format_t ff, int data_only, FILE *fp, char separator[2], i
                 count = nv - done;
 
             /* read and update bookkeeping */
-            if (FAIL == VSread(vd, bb, count, interlace)) {
+            /* the loop below walks the buffer record by record, whatever the interlace of the vdata */
+            if (FAIL == VSread(vd, bb, count, FULL_INTERLACE)) {
                 /* If the data set has external element, get the external
                    file name to provide information */
                 int extfile_namelen = VSgetexternalfile(vd, 0, NULL, NULL);
